@@ -54,6 +54,36 @@ Decided:
      whole-input-tests       no branch of try_from tests the whole string other than through its components
      parse-gates             conditions about the parsed string on the way to the parse are only the spec's
                              (digits / sign / leading zero / non-empty): no further rejection reasons
+  Spelling-independent readings (robustness round 4; all in C09_helpers):
+     statics                 a regex compiled once into a lazily initialised / write-once static (LazyLock, OnceLock +
+                             get_or_init) denotes what its initialiser returns; the static behind a use is identified by type
+                             and Rust scoping (static_table); its initialiser belongs to the validator region
+     combinators             booleans produced by is_some_and / is_ok_and / is_none_or / map_or / is_some / is_none and closures
+                             run by and_then / map / filter / map_or / unwrap_or_else.. are read as the ways they are true /
+                             run (PathConds.combinator_ways, success_ways / failure_ways, context of combinator closures,
+                             lift through them); `r.ok()` is Some iff r is Ok (peel_variant); the match result is taken out
+                             of its Result by unwrap_or(false), unwrap_or_default(), `== Ok(true)`, is_ok_and(|m| m), map + match
+     digits                  "all characters are ASCII digits" = a quantifier (all / !any / !contains / find(..).is_none() /
+                             trim_*_matches(..).is_empty() / a loop that leaves on the first offender, also inside a private
+                             bool fn) over a character predicate that is *evaluated* on one representative per character
+                             class (is_ascii_digit, is_digit(10), matches!(c, '0'..='9'), ('0'..='9').contains(&c), ..)
+     leading zero            starts_with('0') / strip_prefix('0') and `!= "0"` / len() > 1 / rest.is_empty(); the tests in front
+                             of a parse are additionally *exact*: "0", one digit and several digits reach the parse
+                             (parse-gates), decided on representatives (reaches_parse)
+     components              collected unchanged into a Vec<&str> and taken by index / slice pattern behind len == 3, or pulled
+                             with four next() calls and validated afterwards (slots_validated)
+     API halves              split_once('.') with its default in any spelling (pair, private struct, one map_or / match per
+                             half: classified by their alternatives, half_class) or the two items of splitn(2, '.')
+     Serialize / Display     read off the value serialize returns (newtype struct or the string itself, field 0 also through the
+                             type's own AsRef / Deref); Display written by several formatter calls in a row is the sequence
+                             of its must-effects on the formatter (display_pieces_seq)
+     Deserialize             conversions of the workspace that hand the string on are transparent (serde(try_from) over a
+                             TryFrom<String> that calls parse)
+     proc-macro picks        any move / borrow of one of the two expressions (under whatever name, in closures and private
+                             helpers, with the helper's parameters read at its call site) is classified by the ways it takes
+                             effect, incl. eagerly evaluated arguments of then_some / unwrap_or / map_or (selected_paths)
+     three-valued verdicts   guard / sign-guard / leading-zero / split: VIOLATED when a way without any test exists, UNPROVEN
+                             when every open way passes a test of the value that was not understood
 Not decided: the u64 overflow boundary; display/parse being inverse for all triples (core formatting trusted).
 """
 import json
@@ -197,6 +227,14 @@ def run(ctx, rep):
         # from_str and the closures written in it are one body; a call of new_unchecked there is a construction like the
         # tuple constructor (new_unchecked-stored: it stores its argument unchanged) and carries the same obligations
         own = {f.path} | {g.path for g in prog.closures_of(f)}
+        # .. and so are crate-private functions that only from_str's region calls (`fn build(value: &str) -> Self`): their
+        # paths carry the decisions taken at their call sites
+        reg = {g.path: g for g in H.region(prog, f)}
+        for g in reg.values():
+            if g.kind in ('Fn', 'AssocFn') and g.vis != 'pub' and not g.impl_trait and g.path != f.path and not g.path.endswith('::new_unchecked'):
+                refs = prog.callers().get(g.path, [])
+                if refs and all(cs.fn.path in reg and not cs.indirect and cs.name == g.path for cs in refs):
+                    own |= {g.path} | {h.path for h in prog.closures_of(g)}
         mname = T['types'][t]['macro']
         nu_sites = [c for c in prog.callers().get('%s::new_unchecked' % t, []) if c.name == '%s::new_unchecked' % t]
         nu_other = [c for c in nu_sites if not (c.exp and mname in c.macros)]
@@ -221,12 +259,27 @@ def run(ctx, rep):
         builds = [(g, bi, st, None) for g, bi, st in ctor_sites if g.path in own] + [(c.fn, c.bb, None, c) for c in nu_other if c.fn.path in own]
         for g, bi, st, call in builds:
             # on every path to the constructor (not only in the decisions that dominate it)
-            good = H.holds_on_all(PC.paths(g, bi), by_match)
-            rep.check(good, 'R3', t + '/guard', where, 'constructed only when Regex::new(..).and_then(is_match(value)).unwrap_or(false) is true',
-                      'the constructor in from_str is not guarded by the regex match (errors must count as non-match)')
+            cpaths = PC.paths(g, bi)
+            good = H.holds_on_all(cpaths, by_match)
+
+            def not_understood(path):
+                # a decision about the outcome of a regex match that none of the readings above covers
+                return any(H.match_literal(sl, l) is None and any(x[0] == 'call' and x[1] == 'fancy_regex::Regex::is_match' for x in walk(l.value))
+                           for l in path)
+            open_paths = [p for p in (cpaths or []) if H.consistent(p) and not by_match(p)]
+            if not good and open_paths and all(not_understood(p) for p in open_paths):
+                rep.unproven('R3', t + '/guard', where, 'the constructor is reached under a decision about the regex match that was not understood: %s'
+                             % [repr(l)[:120] for l in open_paths[0]][:3])
+            else:
+                rep.check(good, 'R3', t + '/guard', where, 'constructed only when Regex::new(..).and_then(is_match(value)).unwrap_or(false) is true',
+                          'the constructor in from_str is not guarded by the regex match (errors must count as non-match)')
             if st is not None:
                 v = sl._rvalue(g, st[2], set(), 0, None)
                 sv = strip(dict(v[3]).get('0', ('unknown',)))
+                if not (sv[0] == 'param' and sv[1] == f.path):
+                    rows = H.lifted_to(prog, sl, g, [sv], f)
+                    if rows and all(r is not None and canon(strip(r[0])) == canon(strip(rows[0][0])) for r in rows if r is not None) and rows[0] is not None:
+                        sv = strip(rows[0][0])
             elif call is not None:
                 rows = H.lifted_to(prog, sl, g, [sl.operand(g, call.args[0])], f) if call.args else []
                 sv = strip(rows[0][0]) if len(rows) == 1 and rows[0] is not None else ('unknown',)
@@ -248,6 +301,10 @@ def run(ctx, rep):
             if ch is not None and not ok:
                 conv = ch[0]
                 ok = bool(conv.full and ('parse::<%s>' % t) in conv.full) or conv.res == f.path or conv.name == f.path
+            if not ok:
+                # through conversions of the workspace that hand the string on (TryFrom<String> behind serde(try_from))
+                dt = H.deser_through(prog, sl, ds[0], lambda c, t=t, f=f: bool(c.full and ('parse::<%s>' % t) in c.full) or c.res == f.path or c.name == f.path)
+                ok = dt is not None and dt[2] is not None
         rep.check(ok, 'R3', t + '/deserialize', where, 'Deserialize = String::deserialize -> parse::<%s>' % short, 'Deserialize for %s does not go through parse' % short)
         # new_unchecked callers only from the literal macro
         # (a call inside from_str is a construction site of from_str: guarded by the match and checked above)
@@ -267,10 +324,15 @@ def run(ctx, rep):
             pcs = H.display_pieces(sl, dsp)
             ok = ok or (pcs is not None and len(pcs) == 1 and not isinstance(pcs[0], str) and strip(pcs[0])[0] == 'field' and strip(pcs[0])[2] == '0'
                         and strip(strip(pcs[0])[1])[0] == 'param')
+            # `f.write_str(self.as_ref())` / `f.write_str(self)`: self through the newtype's own AsRef / Deref / Borrow impl,
+            # which hands out field 0
+            ok = ok or (pcs is not None and len(pcs) == 1 and not isinstance(pcs[0], str) and H.self_as_field0(prog, sl, dsp, pcs[0]))
         rep.check(ok, 'R5', t + '/display', where, 'Display writes the stored string', 'Display does not write field 0 verbatim')
-        from .lib import serde_schema as S
-        se = S.ser_struct(prog, sl, t)
-        rep.check(se is not None and se['kind'] == 'newtype', 'R5', t + '/serialize', where, 'Serialize is the transparent newtype', 'Serialize for %s is not the transparent newtype' % short)
+        # Serialize hands field 0 itself to the serializer it was given, as a newtype struct (what the derive emits) or as
+        # the plain string — read off the value serialize returns, for the derived and a hand-written impl alike
+        forms = H.serialize_forms(prog, sl, t)
+        rep.check(bool(forms) and all(x in ('newtype', 'str') for x in forms), 'R5', t + '/serialize', where, 'Serialize is the transparent newtype',
+                  'Serialize for %s is not the transparent newtype: %s' % (short, forms))
     # ---- R4 proc macro --------------------------------------------------------------------------------
     vr = prog.fn('libcnb_proc_macros::verify_regex')
     rep.analysed(vr)
@@ -282,37 +344,59 @@ def run(ctx, rep):
     # Taking the input struct apart (`let VerifyRegexInput { a, b, .. } = input;`, `let m = input.a;`) picks nothing yet:
     # a local that is assigned once, unconditionally on entry, and only moved on is another name of the field; the pick
     # is where that name is used.
+    # A pick is any place where one of the two fields (under whatever name) is moved or borrowed to be used; it is
+    # classified by the ways that use takes effect: the paths to it, and — for an eagerly evaluated argument of a selecting
+    # combinator (`cond.then_some(a).unwrap_or(b)`, `opt.map_or(b, |_| a)`) — the ways the combinator yields that argument.
+    def names_field(g, pl):
+        fv = strip(sl.place(g, pl)) if pl else None
+        return fv[2] if fv is not None and fv[0] == 'field' and fv[2] in names else None
+
+    def about_match(l):
+        return H.match_literal(sl, l) is not None or any(x[0] == 'call' and x[1] in ('fancy_regex::Regex::is_match',) for x in walk(l.value))
+
+    def renames(g, st, bi):
+        dest = st[1]
+        if len(dest) != 1 or dest[0] == 0:
+            return False
+        if H.is_field_alias(g, dest, bi):
+            return True
+        # assigned once, where nothing about the match has been decided yet: another name, not a selection
+        if len(g.whole_defs(dest[0])) != 1 or g.partial_defs(dest[0]) or g.in_loop(bi):
+            return False
+        return not any(about_match(l) for p in (PC.paths(g, bi) or []) for l in p)
+
     for g in H.region(prog, vr):
         for bi, b in enumerate(g.blocks):
+            if bi not in g.reachable(0):
+                continue
             for st in b['s']:
-                if st[0] != '=' or st[2]['r'] != 'use':
+                if st[0] != '=' or st[2]['r'] not in ('use', 'ref'):
                     continue
-                pl = op_place(st[2]['o'])
-                picked = [n for n in names if pl and ('.' + n) in pl[1:]]
-                if not picked:
-                    fv = H.field_alias_value(sl, g, pl)
-                    picked = [n for n in names if fv is not None and fv[2] == n]
-                elif H.is_field_alias(g, st[1], bi):
+                pl = op_place(st[2]['o']) if st[2]['r'] == 'use' else st[2].get('p')
+                name = names_field(g, pl)
+                if name is None:
                     continue
-                if not picked or bi not in g.reachable(0):
+                paths, selecting = H.selected_paths(PC, g, bi, st)
+                if not selecting and renames(g, st, bi):
                     continue
                 rep.analysed(g)
-                paths = PC.paths(g, bi)
                 pol = None
                 for want in (True, False):
                     if H.holds_on_all(paths, lambda p, want=want: any((H.match_literal(sl, l) or (None, None))[1] is want for l in p)):
                         pol = want
-                table[pol] = picked[0] if table.get(pol, picked[0]) == picked[0] else 'both'
+                table[pol] = name if table.get(pol, name) == name else 'both'
     rep.check(table == {True: 'expression_when_matched', False: 'expression_when_unmatched'}, 'R4', 'proc-macro/polarity', '%s:%d' % (vr.file, vr.line),
               'is_match(..).unwrap_or(false): true => matched expression, false => unmatched', 'verify_regex selects %s' % table)
     # ---- R6 versions ------------------------------------------------------------------------------------
     # The validator of a type is everything its TryFrom<String> may enter inside the crate: closures, private helpers and
     # fn items handed to adapters.  Guards of an integer parse are read off the path conditions of the parse site.
     def is_int_parse(c):
-        return bool(c.full) and (c.full.endswith('parse::<u64>') or c.full == '<u64 as std::str::FromStr>::from_str')
+        return _is_int_parse_call(c, sl)
 
     def sign_guard(path, pv):
         for l in path:
+            if H.digits_literal(PC, l, pv) is True:
+                return 'a digits-only test'
             if l.kind == 'bool' and l.outcome is True and H.is_digits_test(prog, sl, l.value, pv):
                 return 'all(is_ascii_digit)'
             if l.kind == 'bool' and l.outcome is False and H.is_nondigit_test(prog, sl, l.value, pv):
@@ -345,9 +429,18 @@ def run(ctx, rep):
             paths = PC.paths(g, c.bb)
             ok = H.holds_on_all(paths, lambda p, pv=pv: sign_guard(p, pv) is not None)
             gd = ' / '.join(sorted({sign_guard(p, pv) for p in paths if H.consistent(p)} - {None})) if ok else None
-            rep.check(ok, 'R6', '%s/sign-guard#%d' % (short, i), c.where(), 'integer parse guarded by %s' % gd,
-                      'u64::from_str accepts a leading "+": the parse of a version component is not guarded by a digits-only test, so e.g. "+1" is accepted',
-                      {'function': g.path})
+            if not ok and H.scanned(PC, g, c.bb, pv):
+                # reached only after a loop over the characters that leaves on the first one that is no digit
+                ok, gd = True, 'a loop over its characters that rejects the first non-digit'
+            open_paths = [p for p in (paths or []) if H.consistent(p) and sign_guard(p, pv) is None]
+            if not ok and open_paths and all(unknown_tests(PC, p, pv, g, t) for p in open_paths):
+                # every unguarded way to the parse passes a test of the string that was not understood
+                rep.unproven('R6', '%s/sign-guard#%d' % (short, i), c.where(), 'the parsed string is tested in a way that was not recognised as a digits-only test: %s'
+                             % unknown_tests(PC, open_paths[0], pv, g, t)[:2], {'function': g.path})
+            else:
+                rep.check(ok, 'R6', '%s/sign-guard#%d' % (short, i), c.where(), 'integer parse guarded by %s' % gd,
+                          'u64::from_str accepts a leading "+": the parse of a version component is not guarded by a digits-only test, so e.g. "+1" is accepted',
+                          {'function': g.path})
         # deserialize via try_from: success payload of deserialize = try_from(success payload of String::deserialize(d))
         ds = prog.find(r"Deserialize<'de> for %s>::deserialize$" % re.escape(t)) or \
             prog.find(r"^<%s as .*Deserialize<'de>>::deserialize$" % re.escape(t))
@@ -359,6 +452,9 @@ def run(ctx, rep):
             ch = H.deser_chain(prog, sl, ds[0])
             # the derived `try_from = "String"` impl and a hand-written one have the same normal form
             ok = ok or (ch is not None and bool(ch[0].full) and ch[0].full.startswith(tfn))
+            if not ok:
+                dt = H.deser_through(prog, sl, ds[0], lambda c, tfn=tfn: bool(c.full) and c.full.startswith(tfn))
+                ok = dt is not None and dt[2] is not None
         rep.check(ok, 'R6', short + '/deserialize', where, 'Deserialize via TryFrom<String>', 'Deserialize does not go through try_from')
         # Display template
         dsp = prog.fns.get('<%s as std::fmt::Display>::fmt' % t)
@@ -393,7 +489,10 @@ def run(ctx, rep):
     if tf is not None:
         where = '%s:%d' % (tf.file, tf.line)
         sp = [c for g in regions[VER] for c in g.calls if c.name == 'core::str::<impl str>::split' and strip(sl.operand(g, c.args[1])) == ('const', '.')]
-        rep.check(len(sp) == 1, 'R6', 'BuildpackVersion/split', where, "split on '.'", "version is not split on '.'")
+        if not sp and not [c for g in regions[VER] for c in g.calls if (c.name or '').startswith('core::str::<impl str>::') and 'split' in c.name]:
+            rep.unproven('R6', 'BuildpackVersion/split', where, "how the version string is cut into components was not recognised (no str::split('.'))")
+        else:
+            rep.check(len(sp) == 1, 'R6', 'BuildpackVersion/split', where, "split on '.'", "version is not split on '.'")
         oks = [d[1] for d in tf.whole_defs(0) if d[0] == 'stmt' and d[3]['r'] == 'agg' and d[3].get('variant') == 'Ok']
         # Two ways of establishing "exactly 3 components, each of them validated" at every Ok site:
         #  (a) the components are collected all-or-nothing and the collection's length is compared with 3;
@@ -426,8 +525,41 @@ def run(ctx, rep):
                       and H.split_source(sl.operand(tf, c.args[0]))[1] == src]
             if not others and oks and all(H.exact_count(tf, sl, cl, bi) == 3 for bi in oks):
                 by_count = cl
-        rep.check(by_len or by_pull or by_count is not None, 'R6', 'BuildpackVersion/three-parts', where,
-                  'Ok only for exactly 3 components (%s)' % ('length == 3' if by_len else '3 pulls are Some, the 4th is None' if by_pull
+        #  (d) they are collected unchanged into a Vec<&str>: every Ok site lies behind `len == 3` of that Vec and behind a
+        #      successful validation of each of its elements 0, 1, 2
+        coll = H.collected_components(sl, tf)
+        vnames = {g.path for g in regions[VER] if _yields_u64(g)}
+
+        def is_validator(c):
+            return is_int_parse(c) or (c.name in vnames) or (c.res in vnames)
+        by_slots = coll is not None and bool(oks) and all(H.slots_validated(prog, sl, tf, bi, coll, 3, is_validator) for bi in oks)
+        #  (e) the collected components are converted into a fixed-size array: `Vec<T> -> [T; 3]` (try_into / try_from)
+        #      succeeds iff there are exactly 3; every way to an Ok site passes that conversion being Ok
+        def into_array3(l):
+            if l.kind != 'variant' or l.outcome != frozenset(['Ok']) or l.value[0] != 'call' or len(l.value[2]) != 1:
+                return False
+            c = H.call_of(prog, l.value)
+            if c is None or (c.decl or '') not in ('std::convert::TryInto::try_into', 'std::convert::TryFrom::try_from'):
+                return False
+            m = re.match(r'std::result::Result<\[[^;\]]+; (\d+)\], ', c.dty or '')
+            src = H.split_source(l.value[2][0])[1]
+            return m is not None and int(m.group(1)) == 3 and src[0] == 'call' and src[1] == 'core::str::<impl str>::split'
+        by_array = bool(oks) and all(H.holds_on_all(PC.paths(tf, bi), lambda p: any(into_array3(l) for l in p)) for bi in oks)
+        def counts_differently(bi):
+            # a comparison of a length / count with a number, on the way to Ok, that is not `== 3`
+            for cd in conditions(tf, bi, sl):
+                v = cd.value
+                if cd.kind == 'bool' and v is not None and v[0] == 'bin' and len(v) == 4 and v[1] in ('Eq', 'Ne', 'Lt', 'Le', 'Gt', 'Ge'):
+                    ks = [strip(x)[1] for x in (v[2], v[3]) if strip(x)[0] == 'const' and isinstance(strip(x)[1], int) and not isinstance(strip(x)[1], bool)]
+                    if len(ks) == 1 and not ((v[1] == 'Eq' and cd.outcome is True and ks[0] == 3) or (v[1] == 'Ne' and cd.outcome is False and ks[0] == 3)):
+                        return True
+            return False
+        recognised_three = by_len or by_pull or by_count is not None or by_slots or by_array
+        if not recognised_three and oks and pl is None and not H.counting_loops(tf, sl) and not any(counts_differently(bi) for bi in oks):
+            rep.unproven('R6', 'BuildpackVersion/three-parts', where, 'how "exactly three components" is established on the way to Ok was not recognised')
+        else:
+            rep.check(recognised_three, 'R6', 'BuildpackVersion/three-parts', where,
+                  'Ok only for exactly 3 components (%s)' % ('length == 3' if by_len or by_slots or by_array else '3 pulls are Some, the 4th is None' if by_pull
                                                              else 'counted by the loop over the components, count == 3 after it'),
                   'a version with a component count other than 3 can be accepted')
         # every component takes part in the decision: split('.') -> map(validate) -> collect::<Option<Vec<_>>>()
@@ -437,13 +569,21 @@ def run(ctx, rep):
         names = [c.decl.split('::')[-1] for c in its]
         coll = [c for c in its if c.decl.endswith('::collect')]
         all_or_nothing = names.count('map') == 1 and set(names) <= {'map', 'collect'} and len(coll) == 1 and \
-            'collect::<std::option::Option<std::vec::Vec<' in (coll[0].full or '')
+            ('collect::<std::option::Option<std::vec::Vec<' in (coll[0].full or '') or 'collect::<std::result::Result<std::vec::Vec<' in (coll[0].full or ''))
         pulled_all = False
         if by_pull and not all_or_nothing:
             stages, src = H.pipeline(pl[0])
             pulled_all = stages == ['map'] and src[0] == 'call' and src[1] == 'core::str::<impl str>::split' and \
                 set(names) <= {'map', 'next'} and names.count('map') == 1 and \
                 all('valid' in st for row in pull_rows for st in row[:3])
+        # (b') pulled one by one from split('.') itself and validated afterwards: three pulls are Some, the fourth is None,
+        #      and every Ok site lies behind a successful validation of each of the three items
+        pulled_plain = False
+        if by_pull and not all_or_nothing and not pulled_all:
+            stages, src = H.pipeline(pl[0])
+            pcalls = H.pull_slot_calls(prog, sl, tf, pl[1][:3])
+            pulled_plain = stages == [] and src[0] == 'call' and src[1] == 'core::str::<impl str>::split' and set(names) <= {'next'} and \
+                all(H.slots_validated(prog, sl, tf, bi, None, 3, is_validator, pcalls) for bi in oks)
         # (c) an explicit loop over split('.') itself (no adapter in between) that runs to exhaustion before any Ok: every
         #     component goes through one iteration, and every way round the loop passes the integer parse of the loop
         #     variable being Ok (its guards are the sign / leading-zero obligations on the paths to that parse)
@@ -462,45 +602,185 @@ def run(ctx, rep):
                             and canon(strip(sl.operand(tf, pc.args[0]))) == elem:
                         good = True
                 looped_all = looped_all and good
-        rep.check(all_or_nothing or pulled_all or looped_all, 'R6', 'BuildpackVersion/all-components', where,
+        DROPPING = {'map_while', 'filter_map', 'filter', 'take_while', 'skip_while', 'take', 'skip', 'flatten', 'flat_map', 'step_by', 'nth', 'last',
+                    'find', 'find_map', 'scan', 'zip', 'peekable', 'fuse', 'rev', 'chain', 'min', 'max', 'position'}
+        region_its = {c.decl.split('::')[-1] for g in regions[VER] for c in g.calls if c.decl and c.decl.startswith('std::iter::Iterator::')}
+        recognised_all = all_or_nothing or pulled_all or pulled_plain or looped_all or by_slots
+        if not recognised_all and not (set(names) & DROPPING) and not (coll and 'Option<' not in (coll[0].full or '') and 'Result<' not in (coll[0].full or '')
+                                                                        and names.count('map') >= 1) and pl is None:
+            # nothing in the pipeline drops or truncates components, but how each of them is validated was not recognised
+            rep.unproven('R6', 'BuildpackVersion/all-components', where, 'the way the components %s are validated one by one was not recognised'
+                         % sorted(region_its))
+        else:
+            rep.check(recognised_all, 'R6', 'BuildpackVersion/all-components', where,
                   'components: split -> %s: any invalid component rejects the version'
                   % ('map(validate) -> collect::<Option<Vec<_>>>' if all_or_nothing else 'map(validate) -> three validated pulls and an exhausted iterator' if pulled_all
-                     else 'a loop that validates each one and runs to exhaustion'),
+                     else 'three pulls, each validated, and an exhausted iterator' if pulled_plain
+                     else 'a loop that validates each one and runs to exhaustion' if looped_all else 'collect::<Vec<&str>> of length 3, each element validated'),
                   'the component pipeline is %s%s: invalid or surplus components can be dropped instead of rejecting the version (e.g. "1.2.3.x" accepted as 1.2.3)'
                   % (names, '' if not coll else ' collecting into ' + (coll[0].full or '').split('collect::')[-1][:60]))
         # leading zero: every path to an integer parse of the validator passes `!(s.starts_with('0') && s != "0")`,
         # i.e. contains `starts_with(s, '0') == false` or `s == "0"` for the parsed string s — however the test is
         # spelled (`||` chains, named booleans, early return, a private predicate)
+        # (`s.len() > 1` for `s != "0"` and `strip_prefix('0')` for `starts_with('0')` say the same)
         def no_leading_zero(path, pv):
-            return any(l.kind == 'bool' and ((l.outcome is False and H.is_starts_with(l.value, pv, '0')) or
-                                             (l.outcome is True and H.is_eq_const(l.value, pv, '0'))) for l in path)
+            return any(H.zero_prefix_literal(l, pv) in ('no', 'just') or H.len_le1(l, pv) is True for l in path)
         mine = all_parses.get(VER, [])
         lz = bool(mine)
+        lz_unknown = bool(mine)
         for g, c in mine:
             pv = sl.operand(g, c.args[0])
             paths = PC.paths(g, c.bb)
-            tested = any(l.kind == 'bool' and H.is_starts_with(l.value, pv, '0') for p in paths for l in p)
-            lz = lz and tested and H.holds_on_all(paths, lambda p, pv=pv: no_leading_zero(p, pv))
-        rep.check(lz, 'R6', 'BuildpackVersion/leading-zero', where, 'components with a redundant leading zero are rejected before parsing',
-                  'leading-zero rejection (starts_with("0") && != "0" => reject) not found in front of the integer parse')
+            tested = any(H.zero_prefix_literal(l, pv) in ('no', 'other') for p in paths for l in p)
+            here = tested and H.holds_on_all(paths, lambda p, pv=pv: no_leading_zero(p, pv))
+            lz = lz and here
+            if not here:
+                open_paths = [p for p in (paths or []) if H.consistent(p) and not no_leading_zero(p, pv)]
+                lz_unknown = lz_unknown and bool(open_paths) and all(unknown_tests(PC, p, pv, g, VER) for p in open_paths)
+        if not lz and lz_unknown:
+            rep.unproven('R6', 'BuildpackVersion/leading-zero', where, 'the parsed component is tested in a way that was not recognised as the leading-zero rejection')
+        else:
+            rep.check(lz, 'R6', 'BuildpackVersion/leading-zero', where, 'components with a redundant leading zero are rejected before parsing',
+                      'leading-zero rejection (starts_with("0") && != "0" => reject) not found in front of the integer parse')
     tf = prog.fns.get('<%s as std::convert::TryFrom<std::string::String>>::try_from' % API)
     if tf is not None:
         where = '%s:%d' % (tf.file, tf.line)
         so = [c for g in regions[API] for c in g.calls if c.name == 'core::str::<impl str>::split_once' and strip(sl.operand(g, c.args[1])) == ('const', '.')]
+        sn = [c for g in regions[API] for c in g.calls if c.name == 'core::str::<impl str>::splitn']
         dv = [c for c in tf.calls if c.name and c.name.endswith('unwrap_or') and any(x == ('const', '0') for x in walk(sl.operand(tf, c.args[1])))]
-        by_unwrap_or = len(so) == 1 and len(dv) == 1
+        by_unwrap_or = len(so) == 1 and len(dv) == 1 and not sn
         # semantically: the strings handed to the integer parses, re-expressed in try_from's terms, are the two halves
-        # of  split_once(value, '.')  with  (value, "0")  standing in when there is no '.'
+        # of  split_once(value, '.')  with  (value, "0")  standing in when there is no '.'  — or, the same two strings,
+        # the first and the second item of  value.splitn(2, '.')  with "0" standing in for a missing second item
         by_value = False
-        if len(so) == 1 and not by_unwrap_or:
-            pairs = default_pairs(prog, sl, tf)
+        if len(so) + len(sn) == 1 and not by_unwrap_or:
             lifted = []
             for g, c in all_parses.get(API, []):
                 for top, vals in H.lift(prog, sl, g, [sl.operand(g, c.args[0])], tf):
-                    lifted.append(canon(strip(vals[0])) if top.path == tf.path else None)
-            by_value = any(None not in lifted and set(lifted) == {canon(strip(sl._field(p, '0'))), canon(strip(sl._field(p, '1')))} for p in pairs)
-        rep.check(by_unwrap_or or by_value, 'R6', 'BuildpackApi/split', where, "split_once('.') with default minor \"0\"", 'API version is not split_once(".") with default minor "0"')
+                    lifted.append(H.pull_key(strip(vals[0])) if top.path == tf.path else None)
+            by_value = any(None not in lifted and set(lifted) <= (a | b) and set(lifted) & a and set(lifted) & b for a, b in api_halves(prog, sl, tf))
+        if not (by_unwrap_or or by_value) and not so and not sn:
+            rep.unproven('R6', 'BuildpackApi/split', where, "how the API version string is cut into major and minor was not recognised (no split_once('.') / splitn(2, '.'))")
+        else:
+            rep.check(by_unwrap_or or by_value, 'R6', 'BuildpackApi/split', where, "split_once('.') with default minor \"0\"", 'API version is not split_once(".") with default minor "0"')
     deepen(ctx, rep, prog, sl, PC, T, info, regions, all_parses)
+
+
+def known_test(PC, l, pv, g, t):
+    """literal l is one of the tests of the parsed string pv that this rule reads (digits, sign, leading zero, length 1,
+    emptiness, the digits scan, "there is a component") — with either outcome"""
+    prog, sl = PC.prog, PC.sl
+    if H.digits_literal(PC, l, pv) is not None or H.scan_step_literal(PC, g, l, pv):
+        return True
+    if H.zero_prefix_literal(l, pv) is not None or H.len_le1(l, pv) is not None:
+        return True
+    if l.kind == 'variant' and pv[0] == 'unwrap' and canon(l.value) == canon(pv[1]):
+        return True
+    if l.kind == 'variant' and l.outcome == frozenset(['Some']) and strip(pv)[0] == 'param' and H.same(l.value, pv):
+        return True
+    if l.kind != 'bool':
+        return False
+    v = l.value
+    if H.is_digits_test(prog, sl, v, pv) or H.is_nondigit_test(prog, sl, v, pv) or H.is_starts_with(v, pv, '+') or H.is_starts_with(v, pv, '-'):
+        return True
+    return v[0] == 'call' and v[1] == 'core::str::<impl str>::is_empty' and len(v[2]) == 1 and H.same(v[2][0], pv)
+
+
+def unknown_tests(PC, path, pv, g, t):
+    """renderings of the literals of `path` that mention the parsed string pv and are none of the known tests"""
+    key = canon(strip(pv))
+    out = []
+    for l in path:
+        if any(canon(strip(x)) == key for x in walk(l.value) if isinstance(x, tuple)) and not known_test(PC, l, pv, g, t):
+            out.append(repr(l)[:140])
+    return out
+
+
+def half_alts(sl, v, depth=0):
+    """the alternatives a value can denote, with defaults of Option combinators and joins of match arms spelled out:
+    phi(a | b) -> {a, b};  o.map_or(d, f) / o.map(f).unwrap_or(d) -> {d, f(payload of o)};  pair.i -> {alt.i};
+    the set is the same for `match o { Some((a, _)) => a, None => d }`, `o.map_or(d, |(a, _)| a)`, `o.unwrap_or((d, e)).0`"""
+    if depth > 8 or not isinstance(v, tuple) or not v:
+        return {v}
+    if v[0] == 'phi':
+        out = set()
+        for x in v[1]:
+            out |= half_alts(sl, x, depth + 1)
+        return out
+    if v[0] == 'updated':
+        return half_alts(sl, v[1], depth + 1)
+    if v[0] == 'select' and len(v) == 4:
+        out = set()
+        for _names, x in v[3]:
+            out |= half_alts(sl, x, depth + 1)
+        return out
+    if v[0] == 'call' and v[2]:
+        n, a = v[1], v[2]
+        if n in ('std::option::Option::<T>::map_or',) and len(a) == 3:
+            r = sl.apply_closure(strip(a[2]), (H.payload_nf(sl, a[0]),))
+            if r is not None:
+                return half_alts(sl, a[1], depth + 1) | half_alts(sl, r, depth + 1)
+        if n in ('std::option::Option::<T>::unwrap_or',) and len(a) == 2:
+            return half_alts(sl, a[1], depth + 1) | half_alts(sl, H.payload_nf(sl, a[0]), depth + 1)
+    if v[0] == 'field':
+        out = set()
+        for b in half_alts(sl, v[1], depth + 1):
+            out |= half_alts(sl, sl._field(b, v[2]), depth + 1) if b != v[1] else {v}
+        return out
+    return {v}
+
+
+def half_class(sl, tf, v):
+    """0 when v denotes the text before the first '.' of tf's argument (the whole argument when there is none), 1 when it
+    denotes the text after it ("0" when there is none) — read off the alternatives of v: {split_once(value, '.')?.i, default_i}"""
+    alts = {canon(strip(x)) for x in half_alts(sl, v)}
+    if len(alts) != 2:
+        return None
+    for i, is_default in ((0, lambda d: d[0] == 'param' and d[1] == tf.path and d[2] == 0), (1, lambda d: d == ('const', '0'))):
+        some = [x for x in alts if x[0] == 'field' and x[2] == str(i)]
+        rest = [x for x in alts if x not in some]
+        if len(some) != 1 or len(rest) != 1 or not is_default(rest[0]):
+            continue
+        so = some[0][1]
+        so = so[1] if so[0] == 'unwrap' else so
+        if so[0] == 'call' and so[1] == 'core::str::<impl str>::split_once' and len(so[2]) == 2 and strip(so[2][1]) == ('const', '.') \
+                and H.is_param(so[2][0], tf, 0):
+            return i
+    return None
+
+
+def api_parse_args(prog, sl, tf):
+    """the strings handed to the integer parses of BuildpackApi's validator, re-expressed in try_from's terms (None where
+    that is not possible)"""
+    out = []
+    for g in H.region(prog, tf):
+        for c in g.calls:
+            if _is_int_parse_call(c, sl):
+                for top, vals in H.lift(prog, sl, g, [sl.operand(g, c.args[0])], tf):
+                    out.append(vals[0] if top.path == tf.path else None)
+    return out
+
+
+def api_halves(prog, sl, tf):
+    """[({keys of the values denoting the major string}, {.. the minor string})] (H.pull_key of the stripped value): the
+    halves of split_once('.') with (value, "0") as the default, or the two items of splitn(2, '.') with "0" for a missing
+    second one"""
+    out = []
+    for p in default_pairs(prog, sl, tf):
+        out.append(({H.pull_key(strip(sl._field(p, '0')))}, {H.pull_key(strip(sl._field(p, '1')))}))
+    sp = H.splitn_halves(prog, sl, tf)
+    if sp is not None:
+        out.append(sp)
+    # the halves as they reach the integer parses, whichever way the default was spelled (match arms, a private struct,
+    # one map_or / unwrap_or per half): classified by their alternatives
+    majors, minors = set(), set()
+    for v in api_parse_args(prog, sl, tf):
+        k = half_class(sl, tf, v) if v is not None else None
+        if k is not None:
+            (majors if k == 0 else minors).add(H.pull_key(strip(v)))
+    if majors and minors:
+        out.append((majors, minors))
+    return out
 
 
 def default_pairs(prog, sl, tf):
@@ -541,8 +821,20 @@ def default_pairs(prog, sl, tf):
 
 # ---- deepening round ------------------------------------------------------------------------------------------------
 
-def _is_int_parse_call(c):
-    return c is not None and bool(c.full) and (c.full.endswith('parse::<u64>') or c.full == '<u64 as std::str::FromStr>::from_str')
+def _yields_u64(g):
+    """a validator stage: a function yielding an optional number (Option<u64>, or Result<u64, _> whose Err rejects)"""
+    return g.ret == 'std::option::Option<u64>' or (g.ret or '').startswith('std::result::Result<u64, ')
+
+
+def _is_int_parse_call(c, sl=None):
+    """str::parse::<u64>(s) / u64::from_str(s) / u64::from_str_radix(s, 10): the same function of s"""
+    if c is None or not c.full:
+        return False
+    if c.full.endswith('parse::<u64>') or c.full in ('<u64 as std::str::FromStr>::from_str', 'core::num::<impl std::str::FromStr for u64>::from_str'):
+        return True
+    if c.full == 'core::num::<impl u64>::from_str_radix' and len(c.args) == 2:
+        return sl is not None and strip(sl.operand(c.fn, c.args[1])) == ('const', 10)
+    return False
 
 
 def deepen(ctx, rep, prog, sl, PC, T, info, regions, all_parses):
@@ -558,6 +850,8 @@ def deepen(ctx, rep, prog, sl, PC, T, info, regions, all_parses):
             prog.find(r"Deserialize<'de> for %s>::deserialize$" % re.escape(t))
         if len(ds) == 1:
             di = H.deser_input(prog, sl, ds[0])
+            if di is not None and not (bool(di[0].full and ('parse::<%s>' % t) in di[0].full) or di[0].res == f.path or di[0].name == f.path):
+                di = H.deser_through(prog, sl, ds[0], lambda c, t=t, f=f: bool(c.full and ('parse::<%s>' % t) in c.full) or c.res == f.path or c.name == f.path) or di
             if di is None:
                 rep.unproven('R3', t + '/deserialize-input', where, 'the success payload of deserialize is not one conversion of one value: %s'
                              % vstr(sl.mk_unwrap(sl.local(ds[0], 0), 1))[:160])
@@ -580,6 +874,9 @@ def deepen(ctx, rep, prog, sl, PC, T, info, regions, all_parses):
             if d[0] == 'stmt' and d[3]['r'] == 'agg' and d[3].get('variant') in ('Ok', 'Err'):
                 if d[3].get('variant') == 'Err':
                     err_ways.append(PC.paths(f, d[1]))
+            elif d[0] == 'call' and (d[3].decl or '').endswith('FromResidual::from_residual'):
+                # `x?` leaving with the error: an Err of from_str, reached on the ways x is Err
+                err_ways.append(PC.paths(f, d[1]))
             elif d[0] == 'call':
                 ways = H.failure_ways(PC, sl._call_value(f, d[3], set(), 0))
                 if ways is None:
@@ -744,13 +1041,19 @@ def deepen(ctx, rep, prog, sl, PC, T, info, regions, all_parses):
         fns = regions[t]
         # the string that is split is the argument itself
         sps = [(g, c) for g in fns for c in g.calls if c.name == split_name and len(c.args) == 2]
+        if t == API:
+            # value.splitn(2, '.') cuts at the same place as split_once('.') (R6/BuildpackApi/split decides how it is used)
+            sps += [(g, c) for g in fns for c in g.calls if c.name == 'core::str::<impl str>::splitn' and len(c.args) == 3]
         ok = bool(sps)
         got = []
         for g, c in sps:
             for row in H.lifted_to(prog, sl, g, [sl.operand(g, c.args[0])], tf):
                 got.append(vstr(row[0])[:80] if row else '?')
                 ok = ok and row is not None and H.is_param(row[0], tf, 0)
-        rep.check(ok, 'R6', short + '/split-input', where, 'the string that is split is the argument of try_from itself',
+        if not sps:
+            rep.unproven('R6', short + '/split-input', where, 'no %s call found: how the input is cut was not recognised' % split_name.split('::')[-1])
+        else:
+            rep.check(ok, 'R6', short + '/split-input', where, 'the string that is split is the argument of try_from itself',
                   'try_from splits %s instead of its argument: strings outside the grammar (e.g. surrounding whitespace) are accepted' % got)
         # deserialize hands the deserialised string itself to try_from
         ds = prog.find(r"Deserialize<'de> for %s>::deserialize$" % re.escape(t)) or \
@@ -758,6 +1061,8 @@ def deepen(ctx, rep, prog, sl, PC, T, info, regions, all_parses):
         tfn = '<%s as std::convert::TryFrom<std::string::String>>::try_from' % t
         if len(ds) == 1:
             di = H.deser_input(prog, sl, ds[0])
+            if di is not None and not (di[0].full and di[0].full.startswith(tfn)):
+                di = H.deser_through(prog, sl, ds[0], lambda c, tfn=tfn: bool(c.full) and c.full.startswith(tfn)) or di
             if di is None or not (di[0].full and di[0].full.startswith(tfn)):
                 rep.unproven('R6', short + '/deserialize-input', where, 'the success payload of deserialize is not try_from of one value: %s'
                              % vstr(sl.mk_unwrap(sl.local(ds[0], 0), 1))[:160])
@@ -785,7 +1090,9 @@ def deepen(ctx, rep, prog, sl, PC, T, info, regions, all_parses):
         elems = component_values(prog, sl, tf, fns, t)
         halves = set().union(*[w for g0, w in elems if g0 is tf]) if elems else set()
 
-        def bare(v, tf=tf, split_name=split_name, halves=halves, depth=0):
+        key_of = H.pull_key if t == API else canon
+
+        def bare(v, tf=tf, split_name=split_name, halves=halves, t=t, key_of=key_of, depth=0):
             if not isinstance(v, tuple) or not v or depth > 40:
                 return False
             if not isinstance(v[0], str):    # a tuple of values (arguments, fields)
@@ -794,9 +1101,11 @@ def deepen(ctx, rep, prog, sl, PC, T, info, regions, all_parses):
                 return v[1] == tf.path and v[2] == 0
             if v[0] == 'call' and v[1] == split_name and len(v[2]) == 2 and H.is_param(v[2][0], tf, 0):
                 return False
+            if t == API and H.is_splitn2(v, tf):
+                return False
             if v[0] == 'tuple' and len(v[1]) == 2 and H.is_param(v[1][0], tf, 0) and strip(v[1][1]) == ('const', '0'):
                 return False    # the default pair (value, "0") of an API version without '.'
-            if v[0] != 'param' and canon(strip(v)) in halves:
+            if v[0] != 'param' and key_of(strip(v)) in halves:
                 return False    # a half of split_once('.') with its default, however the pair was put together
             if v[0] in ('const', 'fnitem', 'constitem', 'unknown', 'closure_env', 'upvar'):
                 return False
@@ -808,7 +1117,9 @@ def deepen(ctx, rep, prog, sl, PC, T, info, regions, all_parses):
                     if not H.consistent(p):
                         continue
                     for l in p:
-                        if bare(l.value):
+                        # whether `x.ok_or_else(|| err(value.clone()))?` continues depends on x alone: what the error is
+                        # built from is no test of the input
+                        if bare(H.decision_core(l.value) if l.kind == 'variant' else l.value):
                             tests.append(repr(l)[:140])
         if not tests:
             rep.holds('R6', short + '/whole-input-tests', where, 'the input is examined only through its components')
@@ -838,7 +1149,7 @@ def deepen(ctx, rep, prog, sl, PC, T, info, regions, all_parses):
                     ok = False
                 for val, want in rows:
                     got.append(vstr(val)[:80])
-                    ok = ok and canon(strip(val)) in want
+                    ok = ok and key_of(strip(val)) in want
                 rep.check(ok, 'R6', '%s/component-input#%d' % (short, i), c.where(), 'the integer parse is given the split component itself',
                           'the integer parse is given %s, not the component itself: components outside the grammar are accepted' % got)
             # conditions about the parsed string on the way to the parse
@@ -847,9 +1158,18 @@ def deepen(ctx, rep, prog, sl, PC, T, info, regions, all_parses):
             def mentions(l, key=key):
                 return any(canon(strip(x)) == key for x in walk(l.value) if isinstance(x, tuple))
 
-            def spec_gate(l, pv=pv, t=t):
+            def spec_gate(l, pv=pv, t=t, g=g):
                 if l.kind == 'variant' and pv[0] == 'unwrap' and canon(l.value) == canon(pv[1]) and l.outcome == frozenset(['Some']):
                     return True     # "there is a component" (the Option that carries it is Some) says nothing about its text
+                if l.kind == 'variant' and l.outcome == frozenset(['Some']) and strip(pv)[0] == 'param' and H.same(l.value, pv):
+                    return True     # the same, stated at a call site about the Option whose payload is passed as pv
+                dl = H.digits_literal(PC, l, pv)
+                if dl is not None:
+                    return dl
+                if H.scan_step_literal(PC, g, l, pv):
+                    return True
+                if t == VER and (H.zero_prefix_literal(l, pv) is not None or H.len_le1(l, pv) is not None):
+                    return True
                 if l.kind != 'bool':
                     return False
                 v = l.value
@@ -871,12 +1191,19 @@ def deepen(ctx, rep, prog, sl, PC, T, info, regions, all_parses):
                     if mentions(l) and not spec_gate(l):
                         extra.append(repr(l)[:140])
             if paths and not extra:
+                # exactness, decided on one representative per class of digit strings: those the grammar allows reach the
+                # parse (for versions: "0", one digit, several digits without a leading zero)
+                for what, text in (H.ZERO_CLASSES.items() if t == VER else [('a digit string', '10'), ('"0"', '0'), ('"007"', '007')]):
+                    r = H.reaches_parse(PC, g, paths, pv, text, mentions)
+                    if r is not True:
+                        extra.append('%s %s the integer parse' % (what, 'does not reach' if r is False else 'was not shown to reach'))
+            if paths and not extra:
                 rep.holds('R6', '%s/parse-gates#%d' % (short, i), c.where(), 'the parse is reached under the spec\'s conditions only (digits, sign, leading zero)')
             else:
                 rep.unproven('R6', '%s/parse-gates#%d' % (short, i), c.where(),
                              'a component is also tested in a way not shown to follow from the grammar (valid components may be rejected): %s' % sorted(set(extra))[:3])
         # every optional integer of the validator is the parse's success payload
-        opt = [g for g in fns if g is not tf and g.ret == 'std::option::Option<u64>']
+        opt = [g for g in fns if g is not tf and _yields_u64(g)]
         ok = bool(opt)
         got = []
         for g in opt:
@@ -884,7 +1211,7 @@ def deepen(ctx, rep, prog, sl, PC, T, info, regions, all_parses):
             ok = ok and bool(ps)
             for p in ps:
                 core = p[1] if p[0] == 'unwrap' else None
-                good = core is not None and core[0] == 'call' and _is_int_parse_call(H.call_of(prog, core))
+                good = core is not None and core[0] == 'call' and _is_int_parse_call(H.call_of(prog, core), sl)
                 if not good:
                     got.append('%s yields %s' % (g.path.split('::')[-1], vstr(p)[:80]))
                 ok = ok and good
@@ -912,7 +1239,7 @@ def deepen(ctx, rep, prog, sl, PC, T, info, regions, all_parses):
                             srcs = srcs or H.filled_array_reads(tf, sl, cl, fv, cbb)
                     nums.extend([(fname, x) for x in (srcs if srcs is not None else [fv])])
             bad = ['%s <- %s' % (fname, vstr(x)[:80]) for fname, x in nums
-                   if not (x[0] == 'unwrap' and x[1][0] == 'call' and _is_int_parse_call(H.call_of(prog, x[1])))]
+                   if not (x[0] == 'unwrap' and x[1][0] == 'call' and _is_int_parse_call(H.call_of(prog, x[1]), sl))]
             if why is not None or not nums:
                 rep.unproven('R6', short + '/component-value', where, 'no function of the validator yields Option<u64> and %s' % (why or 'the Ok payload has no fields'))
             else:
@@ -949,12 +1276,31 @@ def component_values(prog, sl, tf, fns, t):
                 if names:
                     return None
                 out.append((g, {canon(strip(H.loop_element(g, sl, L)))}))
+        # `let parts: Vec<&str> = value.split('.').collect()`: the elements parts[i], and the parameter of a function
+        # that is handed an element
+        coll = H.collected_components(sl, tf)
+        slot_uses = H.slot_calls(prog, sl, tf, coll) if coll is not None else []
+        pl = H.pulls(sl, tf)
+        if pl is not None:
+            stages, src = H.pipeline(pl[0])
+            if stages == [] and src[0] == 'call' and src[1] == 'core::str::<impl str>::split':
+                slot_uses = slot_uses + H.pull_slot_calls(prog, sl, tf, pl[1])
+        if slot_uses:
+            for i, c, j in slot_uses:
+                callee = None
+                for n in (c.res, c.name):
+                    callee = callee or (prog.fns.get(n) if n else None)
+                if callee is not None and callee in fns:
+                    out.append((callee, {canon(('param', callee.path, j, callee.local_name(j + 1)))}))
+                else:
+                    arg = sl.operand(tf, c.args[j]) if j < len(c.args) else None
+                    if arg is not None:
+                        out.append((tf, {canon(strip(arg))}))
         return out or None
-    pairs = default_pairs(prog, sl, tf)
-    if not pairs:
+    halves = api_halves(prog, sl, tf)
+    if not halves:
         return None
     want = set()
-    for p in pairs:
-        want.add(canon(strip(sl._field(p, '0'))))
-        want.add(canon(strip(sl._field(p, '1'))))
+    for a, b in halves:
+        want |= a | b
     return [(tf, want)]
